@@ -7,6 +7,7 @@ mod c02;
 mod c03;
 mod c05;
 mod c06;
+mod c07;
 mod c08;
 mod c09;
 mod c10;
@@ -47,6 +48,8 @@ fn main() {
         "c13" => c11::run(&cases, &out, &tier, seed, "c13"),
         "c02" => c02::run(&cases, &out, &tier, seed),
         "c05" => c05::run(&cases, &out, &tier, seed),
+        "dbg07" => c07::dbg(seed),
+        "c07" => c07::run(&cases, &out, &tier, seed),
         "c08" => c08::run(&cases, &out, &tier, seed),
         "c15" => c15::run(&cases, &out, &tier, seed),
         "c18" => c18::run(&cases, &out, &tier, seed),
